@@ -424,9 +424,10 @@ def hasField (kind : Char) (j : J) (key : String) : Bool :=
 
 /-! ### request ids at the C++ width
 
-`int id_alloc_`; `id = ++id_alloc_` (rpc.cpp).  The model's counter is a `Nat`; `cppIncr` is the C++
-expression: at `INT_MAX` the increment is a signed overflow (undefined behaviour; `ub = true`),
-which g++ executes as the two's complement wrap. -/
+`int id_alloc_`.  As found: `id = ++id_alloc_` — `cppIncr` is that C++ expression: at `INT_MAX` the
+increment is a signed overflow (undefined behaviour; `ub = true`), which g++ executes as the two's
+complement wrap.  Repaired (patches/C14-08): `Rpc::allocRequestId` walks cyclically through
+`[1, INT_MAX]` and skips ids that are still pending (`nextIdF` below, after `pendingFind`). -/
 
 def kIntMax : Nat := 2147483647
 
@@ -538,9 +539,9 @@ def Srv.cleanup (s : Srv) : Srv := { s with tobe := [], ring := [], vn := 0, tim
 structure Rpc where
   n        : Nat                         -- check_times (timeout_sec)
   idAlloc  : Nat := 0                    -- id_alloc_
-  nTag     : Nat := 0                    -- callbacks handed to request() so far
-  pending  : List (Nat × Cb) := []       -- request_callback_
-  ring     : List (List Nat) := []       -- request_timeout_ ring, head = curr_item_
+  nTag     : Nat := 0                    -- callbacks handed to request() so far (= request_seq_)
+  pending  : List (Nat × Cb) := []       -- request_callback_ (id ↦ {seq = tag + 1, cb})
+  ring     : List (List Nat) := []       -- request_timeout_ ring (the tokens' seq), head = curr_item_
   vn       : Nat := 0                    -- value_number_
   timerOn  : Bool := false               -- sp_timer_ enabled
   now      : Nat := 0                    -- steady clock (ms)
@@ -554,13 +555,39 @@ deriving Repr, DecidableEq
 /-- `Rpc::initialize(proto, timeout_sec)` with `timeout_sec ≥ 1` -/
 def Rpc.init (n : Nat) : Rpc := { n := n, ring := List.replicate n [], srv := Srv.init n }
 
+/-- `Rpc::initialize(proto, timeout_sec)`: `none` = it returns `false` and the object stays uninitialised.
+`fixed = false` is the tree before patches/C14-10: both `TimeoutMonitor::initialize` calls refuse
+`check_times < 1` (no ring is built, `curr_item_` stays null) but their result was ignored and `true`
+returned — the first `request()` then dereferences the null ring (`ring = []` in the model). -/
+def Rpc.initializeG (fixed : Bool) (timeoutSec : Int) : Option Rpc :=
+  if timeoutSec < 1 then (if fixed then none else some (Rpc.init 0)) else some (Rpc.init timeoutSec.toNat)
+
+def Rpc.initialize (timeoutSec : Int) : Option Rpc := Rpc.initializeG true timeoutSec
+
 def pendingFind (p : List (Nat × Cb)) (id : Int) : Option (Nat × Cb) :=
   p.find? (fun e => (e.1 : Int) = id)
 
 def pendingErase (p : List (Nat × Cb)) (id : Nat) : List (Nat × Cb) :=
   p.filter (fun e => e.1 ≠ id)
 
-/-- `TimeoutMonitor::add`: push to the current slot; enable the timer on 0 → 1 -/
+/-- `Rpc::allocRequestId` (patches/C14-08):
+`do { id_alloc_ = id_alloc_ < INT_MAX ? id_alloc_ + 1 : 1; } while (request_callback_ has id_alloc_);`
+`fuel` bounds the iterations of the model; `none` = the loop did not end within `fuel` candidates
+(with `fuel = pending.length + 1` that never happens while fewer than `INT_MAX` requests are pending:
+`C14_alloc_total`; the C++ loop would spin for ever on a table holding all 2³¹−1 ids). -/
+def nextIdF : Nat → Nat → List (Nat × Cb) → Option Nat
+  | 0, _, _ => none
+  | fuel + 1, cur, p =>
+    let c := if cur < kIntMax then cur + 1 else 1
+    if (pendingFind p (c : Int)).isSome then nextIdF fuel c p else some c
+
+def Rpc.nextId (s : Rpc) : Option Nat := nextIdF (s.pending.length + 1) s.idAlloc s.pending
+
+/-- `TimeoutMonitor::add`: push to the current slot; enable the timer on 0 → 1.
+The payload of the request monitor is `RequestToken{id, seq}` (patches/C14-09); the model's ring keeps
+the `seq` component — `seq = ++request_seq_`, the model's `nTag + 1`, one per `request()` with a
+callback, never reused — which identifies the pending entry it was added with (entries are never
+modified: the entry carrying `seq`, if it still exists, has the `id` of the token). -/
 def Rpc.monitorAdd (s : Rpc) (id : Nat) : Rpc :=
   let ring' := match s.ring with
     | [] => []
@@ -569,13 +596,15 @@ def Rpc.monitorAdd (s : Rpc) (id : Nat) : Rpc :=
   let s2 := if s.vn = 0 then { s1 with timerOn := true, due := s.now + 1000 } else s1
   { s2 with vn := s.vn + 1 }
 
-/-- `Rpc::request(method m, params, cb)` with a completion callback running script #`script` -/
+/-- `Rpc::request(method m, params, cb)` with a completion callback running script #`script`
+(meaningful when `nextId` is `some`: `guardReq`).  `request_callback_[id] = {seq, cb}` and
+`request_timeout_.add({id, seq})` with `seq = ++request_seq_` (`nTag + 1`). -/
 def Rpc.request (s : Rpc) (script : Nat) (m : Nat := 0) : Rpc × List REv :=
-  let id := s.idAlloc + 1
+  let id := s.nextId.getD 0
   let cb : Cb := { tag := s.nTag, script := script }
   let s1 := { s with idAlloc := id, nTag := s.nTag + 1,
                      pending := pendingErase s.pending id ++ [(id, cb)] }
-  (s1.monitorAdd id, [.sent id m])
+  (s1.monitorAdd (s.nTag + 1), [.sent id m])
 
 /-- `Rpc::respond(id, …)` (all three overloads): sends whenever `id ≠ 0` — `tobe_respond_` is not
 consulted — and erases the id -/
@@ -586,12 +615,12 @@ def Rpc.apiRespond (s : Rpc) (id code : Int) : Rpc × List REv :=
 /-- calls that dereference `proto_`: on a cleaned-up object they are refused (and flagged) -/
 def Rpc.guard (s : Rpc) (r : Rpc × List REv) : Rpc × List REv := if s.dead then (s, [.misuse]) else r
 
-/-- `request()` with a completion callback additionally executes `++id_alloc_`: with
-`id_alloc_ = INT_MAX` that is a signed overflow (undefined behaviour) — like the null `proto_`
-a precondition violation of the call: refused and flagged (`misuse`), never executed.  So the
-counter of every reachable state is a C++ `int` (`C14_id_width`). -/
+/-- `request()` with a completion callback additionally allocates an id: when the allocation loop
+would not end (every id of `[1, INT_MAX]` pending — `nextId = none`, unreachable below 2³¹−1 pending
+requests) the call is, like the null `proto_`, refused and flagged (`misuse`), never executed.  The
+counter of every reachable state is a C++ `int` in `[0, INT_MAX]` (`C14_id_width`). -/
 def Rpc.guardReq (s : Rpc) (r : Rpc × List REv) : Rpc × List REv :=
-  if s.dead ∨ kIntMax ≤ s.idAlloc then (s, [.misuse]) else r
+  if s.dead ∨ s.nextId = none then (s, [.misuse]) else r
 
 /-- test-only: `id_alloc_ = v` (see `JOp` in Spec.lean) -/
 def Rpc.jump (s : Rpc) (v : Nat) : Rpc := if v ≤ kIntMax then { s with idAlloc := v } else s
@@ -657,11 +686,20 @@ def Rpc.complete (s : Rpc) (id : Int) (code : Int) : Rpc × List REv := Rpc.comp
 def Rpc.runActs (cur : Int) (s : Rpc) (as : List Act) : Rpc × List REv :=
   runActsWith (Rpc.completeF maxDepth) cur s as
 
+/-- `Rpc::onRequestTimeout(token)` (patches/C14-09): the pending entry the token was added with — found
+by its `seq` — is completed with the timeout code; a token whose entry is gone (answered, or its id
+re-used by a newer request, which has a different `seq`) does nothing.
+(C++: `find(token.id)`, then `iter->second.seq == token.seq`.) -/
+def Rpc.expireOne (s : Rpc) (seq : Nat) (code : Int) : Rpc × List REv :=
+  match s.pending.find? (fun e => e.2.tag + 1 = seq) with
+  | none => (s, [])
+  | some e => s.complete (e.1 : Int) code
+
 def Rpc.completeAll (s : Rpc) (code : Int) : List Nat → Rpc × List REv
   | [] => (s, [])
-  | id :: ids =>
-    let r1 := s.complete id code
-    let r2 := Rpc.completeAll r1.1 code ids
+  | seq :: seqs =>
+    let r1 := s.expireOne seq code
+    let r2 := Rpc.completeAll r1.1 code seqs
     (r2.1, r1.2 ++ r2.2)
 
 /-- `TimeoutMonitor::onTimerTick` (patches/C14-06: a copy of the callback is called, so a
